@@ -18,7 +18,7 @@ def configs(tier):
         names = ("a.ics", "b.ics", "c.ics")
         bods = ("U1a", "U1b", "UC", "USP", "UESC", "U2", "TZ1", "NOUID", "NOUID2", "UL1a", "UL1b", "ULP")
     out = [
-        e1common.StoreCfg(kinds=("tree", "bare", "mem", "vdir"), names=names, bodies=bods, oracles={"C06"}, features={"restart"}),
+        e1common.StoreCfg(kinds=("tree", "bare", "mem", "vdir"), names=names, bodies=bods, oracles={"C06"}, features={"restart", "etagargs"}),
         Config(front="wsgi", backend="tree", prefix="/", names={"cal": list(names[:2]), "ab": [], "c2": []}, bodies={"cal": list(bods[:5]), "ab": [], "c2": []},
                features={"restart", "post", "burst"}, oracles={"C06"}),
     ]
